@@ -235,6 +235,7 @@ func (c *Cache[K, V]) syncMutate(s *shard[K, V], apply func()) error {
 		if int64(s.queue.tail.Load()-target) >= 0 {
 			break
 		}
+		verifYield(333)
 		runtime.Gosched()
 	}
 
